@@ -86,7 +86,7 @@ fn encode_direction(m: &RMsg, rng: &mut Rng, out: &mut Out) {
         out.violation("payload-timestamp-or-stream-id-altered", json!({"message": m.to_json()}));
         return;
     }
-    let want_body = m.body();
+    let want_body = if expressible { m.body() } else { Vec::new() };
     if !expressible {
         // accepted although plain AMF0 strings cannot hold it (a library may use long strings):
         // the reference layouts do not apply, but it must convert back to an equal message
